@@ -14,7 +14,7 @@ order, and nothing on the GC path can touch them.
       (GC only *reads* them through add_gc_roots)."""
 import re
 from registry import RuleResult
-from heval import local_policy, Evaluator, Policy, EvalError, sym, show, cfield, norm_path
+from heval import subterms, local_policy, Evaluator, Policy, EvalError, sym, show, cfield, norm_path
 from cfg import Cfg, callee_name
 
 MP = 'module::Module::parse'
@@ -100,11 +100,34 @@ def c2(F, res):
 
 
 def c5(F, res):
-    """remove_raw(name) takes exactly one section out - the one it returns - and leaves every other slot alone"""
-    p = 'module::custom::ModuleCustomSections::remove_raw'
-    if p not in F.hir:
-        return
-    ws = Evaluator(F, local_policy(F, p, events=[r'Option::take$', r'::delete$', r'mem::take$', r'mem::replace$'])).run_fn(p, [sym('self'), sym('name')])
+    """remove_raw(name) / delete_typed::<T>() take exactly one section out - the one they return - and leave every other slot alone"""
+    for meth, args in (('remove_raw', ['self', 'name']), ('delete_typed', ['self'])):
+        p = 'module::custom::ModuleCustomSections::' + meth
+        if p not in F.hir:
+            if meth == 'remove_raw':
+                res.error('anchor lost: ModuleCustomSections::remove_raw')
+            continue
+        try:
+            ws = Evaluator(F, local_policy(F, p, events=[r'Option::take$', r'TombstoneArena::delete$', r'mem::take$', r'mem::replace$'])).run_fn(p, [sym(a) for a in args])
+        except EvalError as e:
+            res.error('%s not analysable: %s' % (meth, e))
+            continue
+        one_slot(F, res, meth, ws)
+
+
+def type_tested(w, dels):
+    """the slot deleted is the one a search found with the type test as its predicate (so the later downcast of what
+    was taken out cannot fail; the evaluator does not know that and also explores the failing branch)"""
+    for e in dels:
+        t = e['args'][1]
+        hit = [x for x in subterms(t) if isinstance(x, tuple) and x and x[0] == 'call' and x[1].split('::')[-1] in ('find', 'position', 'find_map')
+               and len(x[2]) == 2 and re.search(r'(^|[( ])is\(walrus_as_any\(elem\(', show(x[2][1]))]
+        if not hit:
+            return False
+    return bool(dels)
+
+
+def one_slot(F, res, meth, ws):
     bad = None
     n = 0
     for w in ws:
@@ -116,8 +139,8 @@ def c5(F, res):
         if inloop:
             bad = 'empties or deletes slots inside its search loop (every match, not only the one it returns)'
             continue
-        if w.outcome != 'return' or not (isinstance(w.value, tuple) and w.value[0] == 'ctor' and w.value[2] == 'Some'):
-            if takes or dels:
+        if w.outcome != 'return' or (isinstance(w.value, tuple) and w.value[0] == 'ctor' and w.value[2] == 'None'):
+            if (takes or dels) and not (meth == 'delete_typed' and type_tested(w, dels)):
                 bad = 'removes something on a path that returns nothing'
             continue
         if len(takes) != 1 or len(dels) != 1:
@@ -142,11 +165,14 @@ def c5(F, res):
         if not same:
             bad = 'empties %s but deletes %s' % (show(slot)[:60], show(sid)[:60])
             continue
+        if meth == 'delete_typed' and not type_tested(w, dels):
+            bad = 'deletes a slot that was not selected by the type test `is::<T>()` (%s)' % show(sid)[:80]
+            continue
         n += 1
     if bad:
-        res.bad('remove_raw/one-slot', 'ModuleCustomSections::remove_raw ' + bad + ': other custom sections would silently disappear')
+        res.bad(meth + '/one-slot', 'ModuleCustomSections::' + meth + ' ' + bad + ': other custom sections would silently disappear')
     elif n:
-        res.ok('remove_raw/one-slot', {'remove_raw': 'one take + one delete, same slot, outside the search'})
+        res.ok(meth + '/one-slot', {meth: 'one take + one delete, same slot, outside the search'})
     else:
         res.error('remove_raw: no successful world')
 
